@@ -251,14 +251,15 @@ Print Assumptions C02_resolved_nodes_by_value.
     (Model/SizedReg.v, Proofs/RankGraph.v, Proofs/SizedRegProofs.v; instances in
     Proofs/ExamplesSizedReg.v).
 
-    [reg_bv_edge r s pa pb]: some item entry (struct / enum entry, not substituted, non-empty
-    namespace) with path [pa] has a field [f] with [is_boxed_gen f = false] whose type reaches,
-    by value, a struct / enum entry that is printed as the item path [pb] ([bv_targets]: follows
-    the resolver; tuples, arrays, compact wrappers, the look-through of [Cow], the arguments of
-    [Option] / [Result] / [Range] / [RangeInclusive] and - conservatively - of substituted paths
-    are traversed; sequences, bit sequences, the arguments of every other struct / enum entry
-    (heap prelude collections, generated items) and the type ids the resolver prints as a generic
-    parameter [_i] of the enclosing item cut).
+    [reg_bv_edge r s pa pb]: the FIRST item-eligible entry with path [pa] ([first_eligible]: struct /
+    enum entry, not substituted, non-empty namespace - the entry the generation loop builds the
+    item of [pa] from) has a field [f] with [is_boxed_gen f = false] whose type reaches, by value,
+    a struct / enum entry that is printed as the item path [pb] ([bv_targets]: follows the
+    resolver; tuples, arrays, compact wrappers, the look-through of [Cow] and the arguments of
+    [Option] / [Result] / [Range] / [RangeInclusive] - also when a pass-through substitute prints
+    one of these four - are traversed; sequences, bit sequences, the arguments of every other
+    struct / enum entry (heap prelude collections, other substitutes, generated items) and the
+    type ids the resolver prints as a generic parameter [_i] of the enclosing item cut).
     [by_value_acyclicb r s]: the longest-path table computed by [length] rounds over the rows of
     that graph is a strictly decreasing rank ([bv_rank_of r s : list string -> nat], on paths).
 
@@ -267,7 +268,7 @@ Print Assumptions C02_resolved_nodes_by_value.
     on a registry with  A { x: Option<B> }, B { y: Option<u8> }  (two [Option] entries in a chain,
     [sz_chain_not_ranked]).  The statements below do not go through [bv_ranked]: the rank lives
     on item paths, so "same path, same rank" holds by construction and no hypothesis beyond
-    [root_fresh] and the boolean is needed.
+    [root_fresh] and the boolean is needed ([skeleton_consistent] is not needed either).
 
     Scope, as for [C02_sized_partial]: generic parameters are opaque.  [item_edge] does not look
     into the arguments of a generated generic item, so a cycle that exists only after
@@ -276,12 +277,13 @@ Print Assumptions C02_resolved_nodes_by_value.
     arguments ([sz_instantiation_gap]). *)
 From V Require Import Model.SizedReg Proofs.RankGraph Proofs.SizedRegProofs.
 
-(** every by-value edge between generated items is an edge of the registry's by-value graph *)
-Theorem C02_item_edges_in_registry :
+(** on a registry that generates, the by-value graph of the generated items IS the by-value graph
+    of the registry *)
+Theorem C02_item_edges_exact :
   forall r s, root_fresh s -> forall teq m, generate r s teq = Ok m ->
-  forall pa pb, item_edge s m pa pb -> reg_bv_edge r s pa pb.
-Proof. exact item_edges_in_registry. Qed.
-Print Assumptions C02_item_edges_in_registry.
+  forall pa pb, item_edge s m pa pb <-> reg_bv_edge r s pa pb.
+Proof. exact item_edges_exact. Qed.
+Print Assumptions C02_item_edges_exact.
 
 (** the boolean decides acyclicity of the registry's by-value graph (both directions) *)
 Theorem C02_by_value_acyclicb_iff :
@@ -313,3 +315,12 @@ Theorem C02_sized :
   forall n p, ~ walk (item_edge s m) n p p.
 Proof. exact sized_pinned. Qed.
 Print Assumptions C02_sized.
+
+(** the condition is also necessary: on a registry that generates, the boolean holds EXACTLY when
+    the generated items have no by-value cycle (so a registry on which it fails and generation
+    succeeds makes the generator emit an infinitely sized type) *)
+Theorem C02_sized_iff :
+  forall r s, root_fresh s -> forall teq m, generate r s teq = Ok m ->
+  (by_value_acyclicb r s = true <-> forall n p, ~ walk (item_edge s m) n p p).
+Proof. exact sized_iff_pinned. Qed.
+Print Assumptions C02_sized_iff.
